@@ -262,6 +262,11 @@ fn rs_len(n: usize) -> Option<ByteString> {
 }
 
 fn up_sized(n: usize, sz: usize) -> Vec<(ByteString, ByteString)> {
+    // n >= 100 selects a list of properties of different sizes (a later one may fit where an earlier one does not)
+    let mixed: &[&[usize]] = &[&[1, 12], &[12, 1], &[1, 12, 1], &[0, 20, 3], &[7, 2, 7, 2]];
+    if n >= 100 {
+        return mixed[(n - 100) % mixed.len()].iter().enumerate().map(|(i, s)| (ByteString::from(format!("{}", i % 10).repeat(*s)), ByteString::from("v".repeat(*s)))).collect();
+    }
     (0..n).map(|i| (ByteString::from(format!("{}", i % 10).repeat(sz)), ByteString::from("v".repeat(sz)))).collect()
 }
 
@@ -269,13 +274,19 @@ fn up_sized(n: usize, sz: usize) -> Vec<(ByteString, ByteString)> {
 pub fn values(full: bool) -> Vec<(v5::codec::Encoded, usize)> {
     use v5::codec as c;
     let mut v: Vec<(c::Encoded, usize)> = Vec::new();
-    let rs_lens: &[Option<usize>] = &[None, Some(0), Some(1), Some(2), Some(3), Some(10), Some(127), Some(128)];
+    let rs_lens_q: &[Option<usize>] = &[None, Some(0), Some(1), Some(2), Some(3), Some(10), Some(127), Some(128)];
+    let rs_lens_t: &[Option<usize>] = &[None, Some(0), Some(1), Some(2), Some(3), Some(5), Some(10), Some(20), Some(64), Some(127), Some(128), Some(300)];
+    let rs_lens = if full { rs_lens_t } else { rs_lens_q };
     let up_cfgs: Vec<(usize, usize)> = {
         let mut u = vec![(0, 0)];
         for n in 1..=4 {
             for sz in [0usize, 1, 5] {
                 u.push((n, sz));
             }
+        }
+        // mixed sizes
+        for m in 0..5 {
+            u.push((100 + m, 0));
         }
         u
     };
@@ -414,9 +425,9 @@ pub fn failing_values_v3() -> Vec<(v3::codec::Encoded, usize)> {
 }
 
 pub fn limits(full: bool) -> Vec<u32> {
-    let mut l: Vec<u32> = (0..=if full { 700 } else { 160 }).collect(); // 0 = no limit
+    let mut l: Vec<u32> = (0..=if full { 1200 } else { 160 }).collect(); // 0 = no limit
     if full {
-        l.extend(701..=720);
+        l.extend(1201..=1220);
         l.extend(16380..=16390);
         l.extend(2_097_150..=2_097_160);
     } else {
@@ -502,7 +513,7 @@ pub fn run(tier: Tier) -> i32 {
     ck.transitions = ck.evaluations;
     ck.distinct_nontrivial = shortened.load(Ordering::Relaxed);
     ck.rule = format!(
-        "{} v5 packet values (acks, SUBACK/UNSUBACK, DISCONNECT, AUTH, CONNACK with reason strings of length none/0/1/2/3/10/127/128 and 0..4 user properties of sizes 0/1/5; PUBLISH/SUBSCRIBE/UNSUBSCRIBE/CONNECT/PING as must-not-shorten controls) x {} outbound limits (every value 0..=64, boundary grid up to u32::MAX) x request-problem-information on/off; 12 v5 + 6 v3 values whose encoding must fail; every v3 generator value x max_size {{0,1,8,200}}. distinct_nontrivial = (value, limit) pairs in which the limit is below the full packet length, i.e. shortening or refusal is forced",
+        "{} v5 packet values (acks, SUBACK/UNSUBACK, DISCONNECT, AUTH, CONNACK with reason strings of length none/0/1/2/3/10/127/128 and 0..4 user properties of sizes 0/1/5 and five lists of mixed sizes; PUBLISH/SUBSCRIBE/UNSUBSCRIBE/CONNECT/PING as must-not-shorten controls) x {} outbound limits (every value 0..=64, boundary grid up to u32::MAX) x request-problem-information on/off; 12 v5 + 6 v3 values whose encoding must fail; every v3 generator value x max_size {{0,1,8,200}}. distinct_nontrivial = (value, limit) pairs in which the limit is below the full packet length, i.e. shortening or refusal is forced",
         vals.len(),
         lims.len()
     );
